@@ -9,6 +9,7 @@ import Ndt.Model.Steps
 import Ndt.Model.Guards
 import Ndt.Model.Select
 import Ndt.Model.Diff
+import Ndt.Model.Points
 import Ndt.Gen.BicomplexRing
 /-! The line-protocol driver: one operation per input line, one output line per input line. -/
 namespace Ndt.Driver
@@ -96,8 +97,36 @@ def quotRat (name : String) (cs : List Rat) (x h : Rat) : Option Rat :=
   | "_complex" => some (dComplex fc x h)
   | _ => none
 
+def diffOfString : String → Option DiffName
+  | "_central" => some .central | "_central_even" => some .central_even | "_forward" => some .forward
+  | "_backward" => some .backward | "_complex" => some .complex | "_complex_odd" => some .complex_odd
+  | "_complex_odd_higher" => some .complex_odd_higher | "_complex_even" => some .complex_even
+  | "_complex_even_higher" => some .complex_even_higher | "_multicomplex" => some .multicomplex
+  | "_multicomplex2" => some .multicomplex2 | _ => none
+
+def pt4Str (p : Pt4 Float) : String := s!"{toHex p.re},{toHex p.im},{toHex p.z2re},{toHex p.z2im}"
+def evalPtStr (e : EvalPt Float) : String := ";".intercalate (e.map (fun (k, p) => s!"{k}:{pt4Str p}"))
+
 def handle (w : List String) : String :=
   match w with
+  -- pts <class> <name> sjre sjim sqrt2 | x… | h…  (Float): the arguments handed to the user function
+  | "pts" :: cls :: name :: a :: b :: c :: rest =>
+    let pc : PtConsts Float := ⟨fb a, fb b, fb c⟩
+    match splitBar rest with
+    | [_, xs, hs] =>
+      let x := floats xs; let h := floats hs
+      if cls == "scalar" then
+        match diffOfString name with
+        | some d => joinSp ((pointsScalar pc d (x.headD 0.0) (h.headD 0.0)).map pt4Str)
+        | none => "unsupported"
+      else if cls == "jacobian" then
+        match diffOfString name with
+        | some d => joinSp ((pointsJacobian pc d x h).map evalPtStr)
+        | none => "unsupported"
+      else if cls == "hessdiag" then joinSp ((pointsHessdiag pc name x h).map evalPtStr)
+      else if cls == "hessian" then joinSp ((pointsHessian name x h).map evalPtStr)
+      else "bad-op"
+    | _ => "bad-op"
   -- diffname method n order: the name LogRule.diff resolves to
   | ["diffname", m, n, o] =>
     match diffName ⟨n.toNat!, Method.ofString m, o.toNat!⟩ with
